@@ -1,5 +1,7 @@
 //! Checks of the net group: C26 C27 C28 C29.
 mod props;
+#[path = "../../../fuzz/oracles/c26.rs"]
+mod fuzz_c26;
 
 fn main() {
     let ctx = engine::Ctx::from_args();
